@@ -65,6 +65,12 @@ def metaOk (o : Obs) (src : Addr) (usn : Option Bytes) : Bool :=
   && o.lookupCI kRemote == some (some (.addr src))
   && o.lookupCI kUdn == some ((usn.bind fun u => if u.isEmpty then .none else udnFromUsn u).map Val.str)
 
+/-- sender metadata of ANY decoded datagram is that of its source address, whatever headers it carries -/
+def sourceMetaOk (o : Obs) (src : Addr) : Bool :=
+  o.lookupCI kHost == some (some (.str (hostString src)))
+  && o.lookupCI kPort == some (some (.int src.port))
+  && o.lookupCI kRemote == some (some (.addr src))
+
 /-- the value sent under a name comes back as sent.  `location` with text comes back as
     `get_adjusted_url(sent, source)` — the sent URL itself unless the source is a scoped IPv6 address
     and the URL's host a link-local address (`adjust_identity`); outside the modelled URL grammar
